@@ -56,8 +56,8 @@ namespace bxdecay0 {
     double p;
     double tclev;
     double thlev;
-    particle * ipg540 = nullptr;
-    particle * ipg591 = nullptr;
+    int npg540 = -1;
+    int npg591 = -1;
 
     // Subroutine describes the deexcitation process in Ru100 nucleus
     // after 2b-decay of Mo100 to ground and excited 0+ and 2+ levels
@@ -151,7 +151,7 @@ namespace bxdecay0 {
     p      = prng_() * (cg + cK);
     if (p <= cg) {
       decay0_gamma(prng_, event_, Egamma, tclev, thlev, tdlev);
-      ipg591 = &event_.grab_last_particle();
+      npg591 = event_.get_particles().size() - 1;
     } else {
       decay0_electron(prng_, event_, Egamma - EbindK, tclev, thlev, tdlev);
       decay0_gamma(prng_, event_, EbindK, 0., 0., tdlev);
@@ -167,13 +167,15 @@ namespace bxdecay0 {
     p      = prng_() * (cg + cK);
     if (p <= cg) {
       decay0_gamma(prng_, event_, Egamma, tclev, thlev, tdlev);
-      ipg540 = &event_.grab_last_particle();
+      npg540 = event_.get_particles().size() - 1;
     } else {
       decay0_electron(prng_, event_, Egamma - EbindK, tclev, thlev, tdlev);
       decay0_gamma(prng_, event_, EbindK, 0., 0., tdlev);
     }
     // Angular correlation between gammas 591 and 540 keV
-    if (ipg591 != nullptr && ipg540 != nullptr) {
+    if (npg591 >= 0 && npg540 >= 0) {
+      particle * ipg591 = &event_.grab_particles()[npg591];
+      particle * ipg540 = &event_.grab_particles()[npg540];
       double p591 = ipg591->get_p();
       double p540 = ipg540->get_p();
       // std::sqrt (pmoment (1, npg591) ** 2 + pmoment (2, npg591) ** 2 +;
